@@ -35,7 +35,9 @@ func c04Workloads(fc bool) []Workload {
 	// CS with the caller blocked sending: handler does not read
 	w3 := StdWorkload("cs", 3, "ClientStream", nil, nil)
 	w3.Call.Ops = []COp{{K: "new"}, {K: "send", Size: big}, {K: "closesend"}, {K: "recvall"}}
-	w3.Handler.Ops = []HOp{{K: "waitctx"}, {K: "recvall"}, {K: "return", Code: codes.Aborted, Msg: "ctx done"}}
+	// (the handler does not read even after its context ended: nothing but the library's own
+	// tear-down may unblock a receive loop that is handing it a frame)
+	w3.Handler.Ops = []HOp{{K: "waitctx"}, {K: "return", Code: codes.Aborted, Msg: "ctx done"}}
 	w3.Handler.KeepGoing = true
 	// B half-closed awaiting trailers
 	w4 := StdWorkload("b", 4, "Bidi", []int{3}, nil)
@@ -69,7 +71,7 @@ func c04Scenarios(tier string) []*Scenario {
 				c, noFC, setName := c, noFC, setName
 				cfg := TunCfg{Reverse: c.rev, ServerNoFC: noFC}
 				opt := Options{Level: "io", Bound: 2, DevOK: oneFaultAnyOrder}
-				if setName == "all" {
+				if setName == "all" || tier == "lite" {
 					opt = Options{Level: "io", Bound: 1, DevOK: onlyFaults}
 				}
 				if thorough {
